@@ -35,6 +35,15 @@ inline bool isControlFrame(WsOpcode op)
   return op == WsOpcode::CLOSE || op == WsOpcode::PING || op == WsOpcode::PONG;
 }
 
+/// \brief Verdict of WebSocketFrame::inspectHeader().
+enum class WsHeaderStatus
+{
+  Incomplete,    ///< too few bytes to decide yet
+  Ok,            ///< acceptable; parse() returns the frame once its payload has arrived
+  ProtocolError, ///< RFC 6455 violation (reserved bits, fragmented or oversized control frame): fail with 1002
+  TooLarge       ///< declared payload length exceeds the caller's limit: fail with 1009
+};
+
 /// \brief Parsed WebSocket frame.
 struct WebSocketFrame
 {
@@ -43,6 +52,44 @@ struct WebSocketFrame
   bool masked = false;
   std::uint8_t maskKey[4] = {0, 0, 0, 0};
   std::vector<std::uint8_t> payload;
+
+  /// \brief Classify the frame header at the start of \p data without waiting
+  /// for the payload. parse() reports a malformed header as "incomplete"
+  /// (nullopt), which a receive loop cannot tell from "wait for more bytes";
+  /// receive loops call this first and fail the connection on ProtocolError /
+  /// TooLarge instead of buffering forever.
+  /// \param maxPayload largest payload length the caller accepts.
+  static WsHeaderStatus inspectHeader(core::BufferView data,
+                                      std::uint64_t maxPayload = UINT64_MAX)
+  {
+    if (data.size() < 2)
+    {
+      return WsHeaderStatus::Incomplete;
+    }
+    const std::uint8_t byte0 = data[0];
+    const std::uint8_t byte1 = data[1];
+    if ((byte0 & 0x70) != 0)
+    {
+      return WsHeaderStatus::ProtocolError; // RSV bits without a negotiated extension
+    }
+    std::uint64_t payloadLen = byte1 & 0x7F;
+    if (isControlFrame(static_cast<WsOpcode>(byte0 & 0x0F)) &&
+        (payloadLen > 125 || (byte0 & 0x80) == 0))
+    {
+      return WsHeaderStatus::ProtocolError; // RFC 6455 Section 5.5
+    }
+    if (payloadLen == 126)
+    {
+      if (data.size() < 4) return WsHeaderStatus::Incomplete;
+      payloadLen = data.readU16BE(2);
+    }
+    else if (payloadLen == 127)
+    {
+      if (data.size() < 10) return WsHeaderStatus::Incomplete;
+      payloadLen = data.readU64BE(2);
+    }
+    return payloadLen > maxPayload ? WsHeaderStatus::TooLarge : WsHeaderStatus::Ok;
+  }
 
   /// \brief Parse a frame from raw bytes.
   /// Returns nullopt if the buffer is incomplete. Sets consumed to bytes used.
